@@ -543,7 +543,9 @@ Definition check (c : sexp) : sexp :=
                                                  (if is_sym "pipe" ms then ["pipelined-while-closing"] else []) ++
                                                  (if is_sym "gate" ms then ["closed-during-handler"] else []) ++
                                                  (if is_sym "gatectx" ms then ["closed-during-handler"; "handler-waits-for-cancellation"] else []) ++
-                                                 (if is_sym "full" ms then ["queue-full-while-closing"] else []))
+                                                 (if is_sym "full" ms then ["queue-full-while-closing"] else []) ++
+                                                 (if is_sym "mute" ms then ["unresponsive-peer"] else []) ++
+                                                 (if is_sym "slow" ms then ["slow-reader-back-pressure"] else []))
                                    | _ => v_mismatch "harness-wait-timed-out" stall
                                    end
                           end
